@@ -664,7 +664,7 @@ impl IggyConsumer {
                     && (nothing_new || polled_messages.current_offset == consumed_offset)
                 {
                     trace!("No new messages to consume in partition ID: {partition_id}, topic: {topic_id}, stream: {stream_id}, consumer: {consumer}");
-                    if auto_commit_enabled && stored_offset < consumed_offset {
+                    if auto_commit_enabled && (nothing_new || stored_offset < consumed_offset) {
                         trace!("Auto-committing the offset: {consumed_offset} in partition ID: {partition_id}, topic: {topic_id}, stream: {stream_id}, consumer: {consumer}");
                         client
                             .read()
